@@ -1,6 +1,6 @@
 (* C13, last step: a complete log is a file that parses to exactly its records.
    Combines the session invariant (Proofs/Session.v) with the framing theorem of the JSON writer (Proofs/Json.v). *)
-From BE Require Import Model.Session Model.Json Gen.JsonFraming Proofs.Session Proofs.Json.
+From BE Require Import Model.Session Model.Json Model.JsonFramingHand Proofs.Session Proofs.Json.
 Local Open Scope list_scope.
 
 Theorem aborted_log_parses : forall x l s,
